@@ -3,7 +3,7 @@ import RepeVerif.Driver.Common
 /-!
 Driver for the `torn` correspondence family (C05).
 
-op:   torn <idx> <ep 0..5> buf N rt N chunk N stall <at> <ms> fault <kind> <arg> w <kind><size>,…
+op:   torn <idx> <ep 0..5> buf N rt N chunk N stall <at> <ms> fault <kind> <arg> w <kind><size>[q<qlen>],…
         rec <tag:id,…|-> <tag:id:k|-> <tag,…|->
 obs:  <idx> frames <n> torn <k> after <none|bytes> len <L> fnv <hex16|->
 
@@ -25,26 +25,55 @@ def claimed : Nat → Option Facts
 /-- digest (byte expansion) only up to this many bytes; must equal `DIGEST_CAP` of the harness -/
 def digestCap : Nat := 4 * 1024 * 1024
 
-def parseWriter (s : String) : Option (Char × Nat) :=
+/-- writer token `<kind><size>[q<qlen>]` -/
+def parseWriter (s : String) : Option (Char × Nat × Nat) :=
   match s.toList with
-  | k :: rest => (String.ofList rest).toNat?.map fun n => (k, n)
+  | k :: rest =>
+    if !k.isAlpha then none else
+    match (String.ofList rest).splitOn "q" with
+    | [a] => a.toNat?.map fun n => (k, n, 0)
+    | [a, b] => do let n ← a.toNat?; let q ← b.toNat?; pure (k, n, q)
+    | _ => none
   | [] => none
+
+def isJson (k : Char) : Bool := k = 'j' ∨ k = 'J' ∨ k = 'y' ∨ k = 'Y' ∨ k = 'b'
+
+/-- pattern character `i` of a long query -/
+def qchar (tag i : Nat) : UInt8 :=
+  let c := (tag * 7 + i + i / 61) % 36
+  UInt8.ofNat (if c < 26 then 97 + c else 22 + c)
+
+/-- `<prefix><tag>`, padded with `/` and pattern characters up to `qlen` bytes when `qlen` is larger -/
+def queryOf (pre : String) (tag qlen : Nat) : Bytes :=
+  let base := (pre ++ toString tag).toUTF8.toList
+  if qlen ≤ base.length then base
+  else base ++ [47] ++ (List.range (qlen - base.length - 1)).map fun j => qchar tag (base.length + 1 + j)
 
 def splitList (s : String) : List String := if s = "-" then [] else s.splitOn ","
 
 def natsOf (s : String) : Option (List Nat) := (s.splitOn ":").mapM (·.toNat?)
 
-/-- query prefix and notify flag of the frame writer kind `k` produces on endpoint `ep` -/
-def shape (ep : Nat) (k : Char) : Option (String × Bool) :=
+/-- query prefix, notify flag and body format of the frame writer kind `k` produces on endpoint `ep`
+(clients: c/T call_with_formats, n/t notify_with_formats, m call_message, j/y notify_json, J/Y/b call_json,
+f/F forward_message (async client); servers: r response, p pushed notify) -/
+def shape (ep : Nat) (k : Char) : Option (String × Bool × Nat) :=
   if ep ≤ 2 then
-    (if k = 'c' then some ("/t/", false) else if k = 'n' ∨ k = 't' then some ("/t/", true) else none)
+    (if k = 'c' ∨ k = 'T' ∨ k = 'm' then some ("/t/", false, 0)
+     else if k = 'n' ∨ k = 't' then some ("/t/", true, 0)
+     else if k = 'j' ∨ k = 'y' then some ("/t/", true, 2)
+     else if k = 'J' ∨ k = 'Y' ∨ k = 'b' then some ("/t/", false, 2)
+     else if k = 'f' ∧ ep = 1 then some ("/t/", true, 0)
+     else if k = 'F' ∧ ep = 1 then some ("/t/", false, 0)
+     else none)
   else
-    (if k = 'r' then some ("/g/", false) else if k = 'p' ∧ ep = 5 then some ("/p/", true) else none)
+    (if k = 'r' then some ("/g/", false, 0) else if k = 'p' ∧ ep = 5 then some ("/p/", true, 0) else none)
 
-def frameOf (ep : Nat) (ws : List (Char × Nat)) (tag id : Nat) : Option LFrame := do
-  let (k, size) ← ws[tag]?
-  let (pre, notify) ← shape ep k
-  pure { id := id, notify := notify, query := (pre ++ toString tag).toUTF8.toList, tag := tag, blen := size }
+def frameOf (ep : Nat) (ws : List (Char × Nat × Nat)) (tag id : Nat) : Option LFrame := do
+  let (k, size, qlen) ← ws[tag]?
+  let (pre, notify, bfmt) ← shape ep k
+  if (isJson k ∧ size < 2) ∨ (k = 'm' ∧ size ≠ 0) then none
+  pure { id := id, notify := notify, query := queryOf pre tag qlen, bfmt := bfmt, json := isJson k,
+         tag := tag, blen := size }
 
 /-- progress events that write `total` bytes of writer `w`'s frame in a few uneven fragments -/
 def fragments (w total : Nat) : List (Ev LFrame) :=
@@ -57,7 +86,7 @@ def fragments (w total : Nat) : List (Ev LFrame) :=
 def hex16 (v : UInt64) : String :=
   String.ofList ((List.range 16).map fun i => hexDigit ((v.toNat / 16 ^ (15 - i)) % 16))
 
-def runCase (idx : String) (ep : Nat) (f : Facts) (ws : List (Char × Nat)) (frames : List (Nat × Nat))
+def runCase (idx : String) (ep : Nat) (f : Facts) (ws : List (Char × Nat × Nat)) (frames : List (Nat × Nat))
     (torn : Option (Nat × Nat × Nat)) (attempted : List Nat) : Option String := do
   -- whole frames, in the recorded order
   let mut evs : List (Ev LFrame) := []
